@@ -77,6 +77,55 @@ def markup_runs(ctx, rnd):
                 except Exception as e:
                     ctx.violation("PageTextTemplateFile(%r, encoding=%s) raised %s: %s" % (src, enc, type(e).__name__, e),
                                   dict(kind="textmode-file", source=src))
+        # one file template (auto_reload) whose file is rewritten in other encodings, and whose configured encoding is
+        # changed between renders: every render returns the current text in the encoding that holds at that moment
+        # (what a new template object on the same file returns)
+        import codecs
+        import itertools
+        encs = ["utf-8", "utf-16", "utf-8-sig", "utf-32", "utf-16-le"]
+        seqs = list(itertools.permutations(encs, 2)) + [("utf-8", "utf-16", "utf-8"), ("utf-16", "utf-8-sig", "utf-32", "utf-8")]
+        for seq in seqs:
+            path = os.path.join(d, "h.txt")
+            t = None
+            for k, enc in enumerate(seq):
+                src = "v%d <%s> ${x} $$ é" % (k, enc)
+                data = src.encode(enc)
+                if enc == "utf-16-le":
+                    data = codecs.BOM_UTF16_LE + data
+                open(path, "wb").write(data)
+                os.utime(path, (1000 + 10 * k, 1000 + 10 * k))
+                n += 1
+                try:
+                    if t is None:
+                        t = PageTextTemplateFile(path, auto_reload=True)
+                    got = t.render(x=val)
+                    fresh = PageTextTemplateFile(path).render(x=val)
+                    text = "v%d <%s> %s $ é" % (k, enc, val)
+                    if got != fresh or got.decode(enc).lstrip("\ufeff") != text:
+                        ctx.violation("text file template, file rewritten in the encodings %s: render %d returns %r; a new template on the "
+                                      "file returns %r (text %r in %s)" % (list(seq), k + 1, got, fresh, text, enc),
+                                      dict(kind="textmode-file-history", encodings=list(seq)))
+                        break
+                except Exception as e:
+                    ctx.violation("text file template, encodings %s: raised %s: %s" % (list(seq), type(e).__name__, e),
+                                  dict(kind="textmode-file-history", encodings=list(seq)))
+                    break
+        for first, second in (("latin-1", "utf-16"), (None, "latin-1"), ("utf-16", None), ("utf-8", "cp1252")):
+            path = os.path.join(d, "e.txt")
+            open(path, "wb").write("a ${x} é".encode("utf-8"))
+            n += 1
+            try:
+                t = PageTextTemplateFile(path, **({"encoding": first} if first else {}))
+                r1 = t.render(x="ü")
+                t.encoding = second
+                r2 = t.render(x="ü")
+                w1, w2 = ("a ü é".encode(first or "utf-8"), "a ü é".encode(second or "utf-8"))
+                if (r1, r2) != (w1, w2):
+                    ctx.violation("text file template with encoding %r, then template.encoding = %r: renders %r, %r; expected %r, %r" % (
+                        first, second, r1, r2, w1, w2), dict(kind="textmode-file-history"))
+            except Exception as e:
+                ctx.violation("text file template, encoding %r then %r: raised %s: %s" % (first, second, type(e).__name__, e),
+                              dict(kind="textmode-file-history"))
     finally:
         import shutil
         shutil.rmtree(d, ignore_errors=True)
